@@ -363,9 +363,9 @@ pub fn def() -> PropDef {
         assumptions: &["exact strata: whole-chunk reads, no latency, next chunk released at the idle barrier, so the executed partition is exactly the planned one", "REQ reads only while a request is outstanding; its application keeps one outstanding"],
         strata: vec![
             Stratum { name: "all_partitions_16", quick: 12_000, thorough: 3 << 15, exhaustive: (false, true), run: all_partitions_16, what: "all 2^15 partitions of a 16-byte item suffix, three suffixes (thorough: complete)" },
-            Stratum { name: "cuts_enumerated", quick: 60_000, thorough: 600_000, exhaustive: (false, false), run: cuts_enumerated, what: "every single cut / pairs of cuts of short streams" },
-            Stratum { name: "byte_at_a_time", quick: 6_000, thorough: 60_000, exhaustive: (false, false), run: byte_at_a_time, what: "one byte per read" },
-            Stratum { name: "random_partitions", quick: 30_000, thorough: 500_000, exhaustive: (false, false), run: random_partitions, what: "long streams, geometric / block-aligned / item-aligned cuts" },
+            Stratum { name: "cuts_enumerated", quick: 60_000, thorough: (600_000) * 8, exhaustive: (false, false), run: cuts_enumerated, what: "every single cut / pairs of cuts of short streams" },
+            Stratum { name: "byte_at_a_time", quick: 6_000, thorough: (60_000) * 8, exhaustive: (false, false), run: byte_at_a_time, what: "one byte per read" },
+            Stratum { name: "random_partitions", quick: 30_000, thorough: (500_000) * 8, exhaustive: (false, false), run: random_partitions, what: "long streams, geometric / block-aligned / item-aligned cuts" },
         ],
     }
 }
